@@ -40,13 +40,17 @@ func (t *TaskExecutor[T]) ExecuteAt(identifier T, callback func(), executionTime
 		queuedElement.Cancel()
 	}
 
-	scheduledTask := t.Executor.ExecuteAt(func() {
+	var scheduledTask *ScheduledTask
+	scheduledTask = t.Executor.ExecuteAt(func() {
 		callback()
 
 		t.queuedElementsMutex.Lock()
 		defer t.queuedElementsMutex.Unlock()
 
-		t.queuedElements.Delete(identifier)
+		// only remove the identifier if it still belongs to this task (it could have been re-scheduled in the meantime)
+		if queuedElement, queuedElementExists := t.queuedElements.Get(identifier); queuedElementExists && queuedElement == scheduledTask {
+			t.queuedElements.Delete(identifier)
+		}
 	}, executionTime)
 
 	if scheduledTask != nil {
